@@ -1,5 +1,6 @@
 import BiotiteModel.Model.C09
 import BiotiteModel.Proofs.C09
+import BiotiteModel.Proofs.C09Band
 import BiotiteModel.Props.C08
 import BiotiteModel.Gen.C09
 /-!
@@ -80,6 +81,49 @@ theorem C09_never_above_ungapped (M : Mat) (g : Int) (hg : g ≤ 0) (a b : Seq) 
     scoreLin M g a b aln ≤ optLocal M g a b :=
   C08_upper_local M g hg a b aln h
 
+/-! ## The band: never above the semi-global optimum for ANY band, equal to it for a band covering all diagonals -/
+
+/-- On the model of `align_banded(local=False)` with a linear penalty `g ≤ 0`: whatever the band, the reported
+score (maximum over the trace start cells of `get_global_trace_starts`) is at most the semi-global optimum
+(`s` is the swapped / cropped setup `bandSetup` produces). -/
+theorem C09_banded_le_opt (s : BandSetup) (g : Int) (hg : g ≤ 0) :
+    bandedScoreSetup false g s ≤ optSemi s.M g s.a s.b :=
+  banded_score_le s.M g s.a s.b s.lower s.upper hg
+
+/-- A band covering all diagonals (after cropping: `lower = 1 - n`, `upper = m - 1`) reaches the semi-global
+optimum, up to the alignment that pairs no position at all (score 0, all gaps terminal), which a band cannot
+express: `max 0 bandedScore = optSemi`.  In particular the two agree whenever some optimal alignment pairs at
+least one position with a non-negative total. -/
+theorem C09_band_full (s : BandSetup) (g : Int) (hg : g ≤ 0) (hn : 0 < s.a.length) (hm : 0 < s.b.length)
+    (hlo : s.lower = 1 - (s.a.length : Int)) (hhi : s.upper = (s.b.length : Int) - 1) :
+    max 0 (bandedScoreSetup false g s) = optSemi s.M g s.a s.b := by
+  have h1 := banded_score_le s.M g s.a s.b s.lower s.upper hg
+  have h2 := banded_full_ge s.M g s.a s.b s.lower s.upper hn hm hlo hhi
+  have h3 := semi_nonneg s.M g s.a s.b
+  have e : bandedScoreSetup false g s = (omaxList (startVals s.M g s.a s.b s.lower s.upper)).getD 0 := rfl
+  rw [e]; omega
+
+/-- inside the table the full-band table coincides cell by cell with `align_optimal`'s semi-global table -/
+theorem C09_band_full_cells (s : BandSetup) (g : Int)
+    (hlo : s.lower = 1 - (s.a.length : Int)) (hhi : s.upper = (s.b.length : Int) - 1) (i j : Nat)
+    (hi : i < s.a.length) (hj : j < s.b.length) :
+    tableGet (bandedFill false s.M g s.a s.b s.lower s.upper) i j = some (some ((linRec .semi s.M g s.a s.b).val i j)) := by
+  unfold tableGet bandedFill
+  rw [Rec.table_get _ _ _ i j (by omega) (by omega), banded_full_inner s.M g s.a s.b s.lower s.upper hlo hhi i j hi hj]
+
+/-- the setup `align_banded` computes from a user band that covers every diagonal of the (unswapped) table -/
+theorem C09_bandSetup_full (a b : Seq) (M : Mat) (band : Int × Int) (hn : 0 < a.length) (hm : 0 < b.length)
+    (hab : a.length ≤ b.length)
+    (h1 : min band.1 band.2 ≤ 1 - (a.length : Int)) (h2 : (b.length : Int) - 1 ≤ max band.1 band.2) :
+    bandSetup a b M band = .ok ⟨a, b, M, 1 - (a.length : Int), (b.length : Int) - 1, false⟩ := by
+  have hsw : ¬ (b.length < a.length) := by omega
+  simp only [bandSetup, hsw, decide_false, Bool.false_eq_true, if_false]
+  have c1 : ¬ ((a.length : Int) + max band.1 band.2 ≤ 0 ∨ min band.1 band.2 ≥ (b.length : Int)) := by omega
+  have c2 : ¬ (min (max band.1 band.2) ((b.length : Int) - 1) - max (min band.1 band.2) (-(a.length : Int) + 1) + 1 < 1) := by
+    omega
+  simp only [c1, c2, if_false]
+  congr 2 <;> omega
+
 /-! ## Ungapped X-drop extension -/
 
 /-- A threshold that cannot bind (at least the sum of the magnitudes of all negative steps) ⇒ the extension
@@ -155,6 +199,8 @@ example : checkResult [0, 1, 0] [1, 1] (Mat.ofRows [[1, -1], [-1, 1]]) (.lin (-1
     [(1, 0), (-1, 1)] 0 = false := by decide
 example : checkResult [0, 1, 0] [1, 1] (Mat.ofRows [[1, -1], [-1, 1]]) (.lin (-1)) .semi (some (5, -5)) none .both
     [(1, 0), (-1, 1)] 1 = false := by decide
+example : bandedScoreSetup false (-1) ⟨[0, 1], [1, 1, 0], Mat.ofRows [[1, -1], [-1, 1]], -1, 2, false⟩ = 1 ∧
+    optSemi (Mat.ofRows [[1, -1], [-1, 1]]) (-1) [0, 1] [1, 1, 0] = 1 := by decide
 example : complete [0, 1, 0] [1, 1] [.both 1 0, .gapA 1] = [.gapB 0, .both 1 0, .gapA 1, .gapB 2] := by decide
 example : xdropExtend 2 [1, -1, -1, 5] = (5 - 1 - 1 + 1, 4) := by decide
 example : xdropExtend 1 [1, -1, -1, 5] = (1, 1) := by decide
